@@ -118,6 +118,79 @@ impl<K, V, S> IndexMap<K, V, S> {
             None
         }
     }
+
+    // ---- neighbouring API, not used by priority-queue 2.3.1 itself: present so that a
+    // ---- change of the crate that reaches for it still builds against the model
+    pub fn shift_remove_index(&mut self, index: usize) -> Option<(K, V)> {
+        if index < self.entries.len() {
+            Some(self.entries.remove(index))
+        } else {
+            None
+        }
+    }
+
+    pub fn pop(&mut self) -> Option<(K, V)> {
+        self.entries.pop()
+    }
+
+    pub fn truncate(&mut self, len: usize) {
+        self.entries.truncate(len);
+    }
+
+    pub fn swap_indices(&mut self, a: usize, b: usize) {
+        self.entries.swap(a, b);
+    }
+
+    pub fn first(&self) -> Option<(&K, &V)> {
+        self.entries.first().map(|e| (&e.0, &e.1))
+    }
+
+    pub fn last(&self) -> Option<(&K, &V)> {
+        self.entries.last().map(|e| (&e.0, &e.1))
+    }
+
+    pub fn keys(&self) -> impl DoubleEndedIterator<Item = &K> + ExactSizeIterator {
+        self.entries.iter().map(|e| &e.0)
+    }
+
+    pub fn values(&self) -> impl DoubleEndedIterator<Item = &V> + ExactSizeIterator {
+        self.entries.iter().map(|e| &e.1)
+    }
+
+    pub fn values_mut(&mut self) -> impl DoubleEndedIterator<Item = &mut V> + ExactSizeIterator {
+        self.entries.iter_mut().map(|e| &mut e.1)
+    }
+
+    pub fn iter_mut(&mut self) -> impl DoubleEndedIterator<Item = (&K, &mut V)> + ExactSizeIterator {
+        self.entries.iter_mut().map(|e| (&e.0, &mut e.1))
+    }
+
+    pub fn retain<F>(&mut self, mut keep: F)
+    where
+        F: FnMut(&K, &mut V) -> bool,
+    {
+        self.entries.retain_mut(|e| keep(&e.0, &mut e.1));
+    }
+
+    pub fn shrink_to(&mut self, min_capacity: usize) {
+        self.entries.shrink_to(min_capacity);
+    }
+
+    pub fn reverse(&mut self) {
+        self.entries.reverse();
+    }
+}
+
+impl<K, V, S: Default> IndexMap<K, V, S> {
+    pub fn with_capacity_and_default_hasher(n: usize) -> Self {
+        Self::with_capacity_and_hasher(n, S::default())
+    }
+}
+
+impl<K, V, S: Default> Default for IndexMap<K, V, S> {
+    fn default() -> Self {
+        Self::with_capacity_and_hasher(0, S::default())
+    }
 }
 
 impl<K, V, S> IndexMap<K, V, S>
@@ -207,6 +280,48 @@ where
             }
             None => None,
         }
+    }
+
+    // ---- neighbouring API (see above)
+    pub fn swap_remove<Q>(&mut self, key: &Q) -> Option<V>
+    where
+        Q: ?Sized + Hash + Equivalent<K>,
+    {
+        self.swap_remove_full(key).map(|(_, _, v)| v)
+    }
+
+    pub fn swap_remove_entry<Q>(&mut self, key: &Q) -> Option<(K, V)>
+    where
+        Q: ?Sized + Hash + Equivalent<K>,
+    {
+        self.swap_remove_full(key).map(|(_, k, v)| (k, v))
+    }
+
+    pub fn shift_remove_full<Q>(&mut self, key: &Q) -> Option<(usize, K, V)>
+    where
+        Q: ?Sized + Hash + Equivalent<K>,
+    {
+        match self.get_index_of(key) {
+            Some(i) => {
+                let (k, v) = self.entries.remove(i);
+                Some((i, k, v))
+            }
+            None => None,
+        }
+    }
+
+    pub fn shift_remove<Q>(&mut self, key: &Q) -> Option<V>
+    where
+        Q: ?Sized + Hash + Equivalent<K>,
+    {
+        self.shift_remove_full(key).map(|(_, _, v)| v)
+    }
+
+    pub fn get_key_value<Q>(&self, key: &Q) -> Option<(&K, &V)>
+    where
+        Q: ?Sized + Hash + Equivalent<K>,
+    {
+        self.get_full(key).map(|(_, k, v)| (k, v))
     }
 }
 
